@@ -11,6 +11,7 @@ From MV Require Import Doc.Registry.
 From MV Require Import Doc.Prog.
 From MV Require Import Gen.Render.
 From MV Require Import Doc.Render.
+From MV Require Import Doc.Skel.
 Import ListNotations.
 Open Scope N_scope.
 
@@ -405,10 +406,62 @@ Section CopyAttrs.
 
   (* without aliases and with distinct keys (a dict), a copied plain key carries the token's value *)
   Lemma copy_loop_plain o tg keys conv k : forall l a msgs0 f a' msgs f',
-    In k keys -> k <> a_class -> k <> a_id -> k <> a_classes -> ~ In k conv -> nodup_keys_ok l ->
+    In k keys -> k <> a_class -> k <> a_id -> k <> a_classes -> nodup_keys l = true ->
     copy_loop C OR o tg keys [] conv l a msgs0 f = Good ((a', msgs), f') ->
-    assoc k a' = match assoc k l with Some v => Some [v] | None => assoc k a end
-  with nodup_keys_dummy : True.
+    assoc k a' = match assoc k l with Some v => Some [v] | None => assoc k a end.
   Proof.
-  Abort.
+    induction l as [|[k0 v] r IH]; intros a msgs0 f a' msgs f' Hin Hc Hi Hcs Hnd H; cbn [copy_loop] in H.
+    - inversion H; subst. reflexivity.
+    - cbn [assoc] in H. cbn [nodup_keys] in Hnd. apply andb_true_iff in Hnd. destruct Hnd as [Hn1 Hn2].
+      cbn [assoc].
+      destruct (mem_str k0 keys) eqn:Ek; cbn [negb] in H.
+      2:{ assert (str_eqb k k0 = false).
+          { apply str_eqb_neq. intro X. subst k0. apply mem_str_In in Hin. congruence. }
+          rewrite H0. eapply IH; eauto. }
+      destruct (str_eqb k0 a_class) eqn:Ec.
+      { apply str_eqb_eq in Ec. subst k0.
+        assert (str_eqb k a_class = false) by (apply str_eqb_neq; exact Hc). rewrite H0.
+        rewrite (IH _ _ _ _ _ _ Hin Hc Hi Hcs Hn2 H).
+        destruct (assoc k r); auto. apply assoc_add_classes_other. exact Hcs. }
+      destruct (str_eqb k0 a_id) eqn:Ei.
+      { apply str_eqb_eq in Ei. subst k0.
+        assert (str_eqb k a_id = false) by (apply str_eqb_neq; exact Hi). rewrite H0.
+        apply fbind_inv' in H. destruct H as [u [f1 [Ea H]]].
+        apply fbind_inv' in H. destruct H as [ms [f2 [En H]]]. eapply IH; eauto. }
+      destruct (mem_str k0 conv); [discriminate|].
+      destruct (str_eqb k k0) eqn:E.
+      + apply str_eqb_eq in E. subst k0. rewrite (IH _ _ _ _ _ _ Hin Hc Hi Hcs Hn2 H).
+        unfold has_key in Hn1. destruct (assoc k r); [discriminate|]. apply assoc_aset_same.
+      + rewrite (IH _ _ _ _ _ _ Hin Hc Hi Hcs Hn2 H). destruct (assoc k r); auto. apply assoc_aset_other.
+        apply str_eqb_neq. exact E.
+  Qed.
+
+  Lemma copy_loop_classes o tg keys conv : forall l a msgs0 f a' msgs f',
+    In a_class keys -> ~ In a_classes keys -> nodup_keys l = true ->
+    copy_loop C OR o tg keys [] conv l a msgs0 f = Good ((a', msgs), f') ->
+    classes_of a' = classes_of a ++ match assoc a_class l with Some c => o_split OR c | None => [] end.
+  Proof.
+    induction l as [|[k0 v] r IH]; intros a msgs0 f a' msgs f' Hin Hcs Hnd H; cbn [copy_loop] in H.
+    - inversion H; subst. rewrite app_nil_r. reflexivity.
+    - cbn [assoc] in H. cbn [nodup_keys] in Hnd. apply andb_true_iff in Hnd. destruct Hnd as [Hn1 Hn2].
+      cbn [assoc].
+      destruct (mem_str k0 keys) eqn:Ek; cbn [negb] in H.
+      2:{ assert (str_eqb a_class k0 = false).
+          { apply str_eqb_neq. intro X. subst k0. apply mem_str_In in Hin. congruence. }
+          rewrite H0. eapply IH; eauto. }
+      destruct (str_eqb k0 a_class) eqn:Ec.
+      { apply str_eqb_eq in Ec. subst k0. rewrite str_eqb_refl.
+        rewrite (IH _ _ _ _ _ _ Hin Hcs Hn2 H). unfold has_key in Hn1.
+        destruct (assoc a_class r); [discriminate|].
+        rewrite app_nil_r. apply classes_of_add_classes. }
+      assert (Ec' : str_eqb a_class k0 = false).
+      { apply str_eqb_neq. intro X. subst k0. rewrite str_eqb_refl in Ec. discriminate. }
+      rewrite Ec'.
+      destruct (str_eqb k0 a_id) eqn:Ei.
+      { apply fbind_inv' in H. destruct H as [u [f1 [Ea H]]].
+        apply fbind_inv' in H. destruct H as [ms [f2 [En H]]]. eapply IH; eauto. }
+      destruct (mem_str k0 conv); [discriminate|].
+      rewrite (IH _ _ _ _ _ _ Hin Hcs Hn2 H). f_equal. unfold classes_of. rewrite assoc_aset_other; auto.
+      intro X. subst k0. apply mem_str_In in Ek. contradiction.
+  Qed.
 End CopyAttrs.
